@@ -944,6 +944,17 @@ func (c *control) getEFGarg(ff *floatFormatter) {
 		if ff.neg = num < 0.0; ff.neg {
 			num = -num
 		}
+		if num == 0.0 || math.IsInf(num, 0) || math.IsNaN(num) {
+			// No decimal exponent can be taken; zero is the digit 0,
+			// infinities and NaN are printed like any other object.
+			if num == 0.0 {
+				ff.digits = []byte{'0'}
+			} else {
+				ff.digits = strconv.AppendFloat(nil, num, 'g', -1, 64)
+				ff.notNum = true
+			}
+			break
+		}
 		ff.exp = int(math.Floor(math.Log10(num)))
 		ff.digits = strconv.AppendFloat(nil, num, 'e', -1, 64)
 		ff.digits = ff.digits[:bytes.IndexByte(ff.digits, 'e')]
